@@ -9,8 +9,13 @@ from wire import hx
 
 KIND = "board"
 SPECS = ["C18"]
-THEOREMS = []
-LEAN_MODULES = ["TbotVerif.Props.C18"]
+THEOREMS = ["C18.run_spec", "C18.bringup_final", "C18.coop_success", "C18.coop_spec", "C18.model_verdict",
+            "C18.C18_unfold", "C18.accepted_start", "C18.deadline_linux", "C18.deadline_uboot",
+            "C18.timeout_only_when_configured", "C18.ok_only_at_end", "C18.credentials", "C18.password_skipped",
+            "C18.hitOf_sound", "C18.bootlogs", "C18.log_grows", "C18.f10_asIs_rejected",
+            "Board.lnxUp_sim", "Board.ubUp_sim", "Board.ubLoop_sim", "Board.ubBoot_sim", "Board.waitLoop_out",
+            "Board.waitLoop_progress", "Board.riTake_progress", "Board.sim_rd", "Board.sim_wr"]
+LEAN_MODULES = ["TbotVerif.Props.C18Ex"]
 QUICK_N, THOROUGH_N = 4000, 60000
 QUICK_BUDGET, THOROUGH_BUDGET = 40, 600
 CASE_WALL = 20
